@@ -143,7 +143,7 @@ func (h *hostileCtx) hostileInput() string {
 	c := h.c
 	t := c.T
 	gwPath := "/remoteDesktopGateway/"
-	switch t.Choose(9) {
+	switch t.Choose(10) {
 	case 0: // request lines and headers to any endpoint
 		paths := []string{"/", "/connect", "/callback", "/callback?state=x&code=y", "/tokeninfo", "/tokeninfo?access_token=" + strings.Repeat("A", 3000), "/metrics", gwPath, "/KdcProxy", "/remoteDesktopGateway", "/%zz", "/connect?host=%00"}
 		methods := []string{"GET", "POST", "RDG_OUT_DATA", "RDG_IN_DATA", "OPTIONS", "\x00\x01", "GET GET", strings.Repeat("M", 300)}
@@ -258,6 +258,25 @@ func (h *hostileCtx) hostileInput() string {
 		return fmt.Sprintf("ntlm:%s scheme=%s after-negotiate=%v", kind, scheme, withSession)
 	case 3, 4: // packet streams on a tunnel, before or after the authorisation sequence
 		return h.hostilePackets()
+	case 9: // a burst of logins while the authentication service is slower than the gateway waits
+		if !h.has("ntlm") || h.node == nil {
+			r := h.do("hdr", fmt.Sprintf("RDG_OUT_DATA %s HTTP/1.1\r\nHost: gw.test\r\nConnection: close\r\nAuthorization: NTLM\r\n\r\n", gwPath))
+			_ = r
+			return "ntlm-bare-keyword"
+		}
+		nreq := 9 + t.Choose(8)
+		h.node.SlowBy = time.Duration(4+t.Choose(5)) * time.Second
+		var ps []*env.Pending
+		for k := 0; k < nreq; k++ {
+			h.n++
+			ps = append(ps, c.W.Start(&env.HTTPReq{Name: fmt.Sprintf("burst%d", h.n), From: fmt.Sprintf("10.9.7.%d:%d", 1+k, 44000+k), Method: "RDG_OUT_DATA", Path: gwPath,
+				Header: [][2]string{{"Authorization", "NTLM " + base64.StdEncoding.EncodeToString(codec.NTLMNegotiate())}}}))
+		}
+		c.W.WaitAll(ps, 30*time.Second)
+		h.node.SlowBy = 0
+		c.S.Run(nil, 200, 2*time.Second)
+		c.S.Count("fault.authnode.slow_during_a_burst_of_logins")
+		return fmt.Sprintf("ntlm-burst:%d logins while the authentication service needs longer than the gateway waits", nreq)
 	case 5: // ordering of the legacy requests
 		h.n++
 		id := fmt.Sprintf("{HOSTILE-%d}", h.n)
